@@ -334,11 +334,14 @@ package lisp
 //@   property C20
 
 //@ frame callers(ext:os.ReadFile) subset { (*RelativeFileSystemLibrary).LoadSource } within lisp property C20
-//@ frame callers(ext:os.Open) subset { } within lisp property C20
+//@ frame callers(ext:os.Open) subset { lisp/x/debugger/debugrepl.showSourceContext } within lisp property C20
 //@ frame callers(ext:os.OpenFile) subset { } within lisp property C20
 //@ frame callers(ext:io/ioutil.ReadFile) subset { } within lisp property C20
 //@ frame callers(ext:io/fs.ReadFile) subset { (*FSLibrary).LoadSource } within lisp property C20
-//@ frame callers((*RelativeFileSystemLibrary).LoadSource) subset { via-interface-in:(*LEnv).LoadFile, via-interface-in:(*LEnv).LoadFileContext } property C20
+//@ frame callers((*RelativeFileSystemLibrary).LoadSource) subset { via-interface-in:(*LEnv).LoadFile, via-interface-in:(*LEnv).LoadFileContext, via-interface-in:lisp/x/debugger/dapserver.(*handler).onSource } property C20
+//@ frame callers(ext:os.ReadFile) subset { cmd.fmtFile, cmd.readStdin, cmd.runMinify } within cmd property C20
+//@ frame callers(ext:os.Open) subset { } within cmd property C20
+//@ frame callers(ext:os.OpenFile) subset { } within cmd property C20
 
 //@ functype SourceLibrary.LoadSource
 //@   modifies nothing
